@@ -21,10 +21,23 @@ func init() {
 	replays["C06"] = opsReplay("handles", runHandleOps, func(r *Result, ops, impl []string) { handleOracle(r, ops, impl, "C06") })
 }
 
+// allocAux is what the oracle may know about one alloc beyond its output: the path the returned value
+// resolved to just before the call ("" if none) and the number of live handles before the call.
+type allocAux struct {
+	prev   string
+	before int
+	gone   []uint64 // values that were live before the call and are dead or re-pointed after it (evictions)
+}
+
+// lastAllocAux is filled by the latest runHandleOps call (indexed like its ops).
+var lastAllocAux []allocAux
+
 // ops: handles init <max> | alloc <pathhex> | get <id> | release <id> | releaseall | count | dump
 func runHandleOps(ops []string) []string {
 	var fm *absnfs.FileHandleMap
 	out := make([]string, len(ops))
+	aux := make([]allocAux, len(ops))
+	defer func() { lastAllocAux = aux }()
 	for i, op := range ops {
 		f := strings.Fields(op)
 		if fm == nil && f[1] != "init" {
@@ -36,7 +49,16 @@ func runHandleOps(ops []string) []string {
 			fm = absnfs.VerifNewFileHandleMap(m)
 			out[i] = "ok"
 		case "alloc":
-			out[i] = fmt.Sprint(absnfs.VerifAllocPath(fm, string(unhx(f[2]))))
+			before := absnfs.VerifHandleDump(fm)
+			h := absnfs.VerifAllocPath(fm, string(unhx(f[2])))
+			aux[i] = allocAux{prev: before[h], before: len(before)}
+			after := absnfs.VerifHandleDump(fm)
+			for id, p0 := range before {
+				if after[id] != p0 {
+					aux[i].gone = append(aux[i].gone, id)
+				}
+			}
+			out[i] = fmt.Sprint(h)
 		case "get":
 			h, _ := strconv.ParseUint(f[2], 10, 64)
 			if p, ok := absnfs.VerifGetPath(fm, h); ok {
@@ -76,6 +98,10 @@ func runHandleOps(ops []string) []string {
 // A "burst" is a maximal run of consecutive alloc ops (as in one READDIRPLUS reply); generated cases put a
 // `dump` right after each burst so liveness of all of its handles can be judged.
 func handleOracle(r *Result, ops, impl []string, prop string) {
+	aux := lastAllocAux
+	if len(aux) != len(ops) {
+		aux = make([]allocAux, len(ops))
+	}
 	maxH := 100000
 	live := map[uint64]string{}   // reference: what must be live, from outputs only (updated from dumps)
 	issued := map[uint64]string{} // ghost: first path each id value was issued for
@@ -105,7 +131,14 @@ func handleOracle(r *Result, ops, impl []string, prop string) {
 					r.violate(Violation{Class: "C05/not-deduplicated", What: fmt.Sprintf("path %q already had live handle %d but Allocate returned %d", p, h0, h), Ops: prefix(i)})
 				}
 			}
-			if first, ok := issued[h]; ok && first != p && prop == "C06" {
+			for _, id := range aux[i].gone {
+				everFreed[id] = true // evicted inside this call (seen through the table, not through outputs)
+			}
+			if a := aux[i]; a.prev != "" && a.prev != p && a.before < maxH && prop == "C06" {
+				// no eviction can have happened inside this call (the table was below its limit), so the value
+				// handed out for p was, at that moment, the live handle of another path
+				r.violate(Violation{Class: "C06/live-handle-reissued", What: fmt.Sprintf("handle value %d was the live handle of %q (table at %d of %d) when Allocate returned it for %q", h, a.prev, a.before, maxH, p), Ops: prefix(i)})
+			} else if first, ok := issued[h]; ok && first != p && prop == "C06" {
 				// ids come either from the counter (always larger than every id issued before) or from the
 				// free list: a previously issued value coming back for another path is free-list reuse
 				cls := "C06/free-list-id-reuse"
